@@ -3,27 +3,31 @@ The throttle / wake-up conditions of the commit queue and of the log queue, as g
 from src/db.rs: whenever a pop brings a queue from "throttled" to "not throttled", the
 popping side's wake-up condition holds, so a waiting committer / log worker is notified.
 (The waiters test the throttle condition once and wait once, so a missed crossing is a hang.)
+
+The log-queue counter is an `i64` in the Rust (`log_queue_wait.work`, "may underflow occasionally"):
+`log_throttle` / `log_wake` are generated over `Int` with two's complement wrapping (`iadd`, `icast`
+of Pdb/Gen/Prim.lean) and the lemmas hold for every counter value in the `i64` range, negative ones
+included.  The comparisons are only ONE conjunct of the `if` headers they sit in: the complete
+headers are pinned by tools/skeleton.py (`<fn>_conds`, obligations `Ord.commitRaw_wait_condition`,
+`Ord.processCommits_conditions`, `Ord.enactLogs_conditions` in Pdb/Proofs/Order.lean).
+
+Second part: the generated definitions are the ones the C15 model (Pdb/Model/Conc.lean) runs on:
+`max_logs` / `keep_logs` (the two `if self.options.sync_data { A } else { B }` of `enact_logs` /
+`clean_logs`) equal `Cfg.maxLogs` / `Cfg.keepLogs`, and the notification conditions of `tickL` /
+`tickC` equal `commit_wake` / `log_wake`.
 -/
 import Pdb.Gen.Bits
+import Pdb.Model.Conc
 
 namespace Pdb.Gen
 
 theorem commit_throttle_iff (q : Nat) : commit_throttle q = true ↔ q > MAX_COMMIT_QUEUE_BYTES := by
   unfold commit_throttle; exact decide_eq_true_iff
 
-theorem log_throttle_iff (q : Nat) : log_throttle q = true ↔ q > MAX_LOG_QUEUE_BYTES := by
-  unfold log_throttle; exact decide_eq_true_iff
-
 theorem commit_wake_iff (q c : Nat) (h64 : q + c < 2 ^ 64) :
     commit_wake q c = true ↔ (q ≤ MAX_COMMIT_QUEUE_BYTES ∧ q + c > MAX_COMMIT_QUEUE_BYTES) := by
   have hm : wadd 64 q c = q + c := by unfold wadd; exact Nat.mod_eq_of_lt h64
   unfold commit_wake
-  rw [hm, Bool.and_eq_true, decide_eq_true_iff, decide_eq_true_iff]
-
-theorem log_wake_iff (q b : Nat) (h64 : q + b < 2 ^ 64) :
-    log_wake q b = true ↔ (q ≤ MAX_LOG_QUEUE_BYTES ∧ q + b > MAX_LOG_QUEUE_BYTES) := by
-  have hm : wadd 64 q b = q + b := by unfold wadd; exact Nat.mod_eq_of_lt h64
-  unfold log_wake
   rw [hm, Bool.and_eq_true, decide_eq_true_iff, decide_eq_true_iff]
 
 /-- Commit queue: `commit_raw` waits while `commit_throttle bytes`; `process_commits` pops a
@@ -45,21 +49,124 @@ theorem commit_wake_implies_unthrottled (q c : Nat) (h64 : q + c < 2 ^ 64)
   | false => rfl
   | true => have := (commit_throttle_iff q).mp ht; omega
 
-/-- Log queue: `process_commits` waits while `log_throttle bytes`; `enact_logs` subtracts the
+/-! ### the log queue: an `i64` counter -/
+
+theorem two_pow_63 : (2 : Int) ^ (64 - 1) = 9223372036854775808 := by decide
+theorem two_pow_64 : (2 : Int) ^ 64 = 18446744073709551616 := by decide
+
+/-- no wrap-around inside the `i64` range -/
+theorem iwrap64_of_range (x : Int) (h1 : -(2 ^ 63) ≤ x) (h2 : x < 2 ^ 63) : iwrap 64 x = x := by
+  unfold iwrap
+  rw [two_pow_63, two_pow_64]
+  have e : (2 : Int) ^ 63 = 9223372036854775808 := two_pow_63
+  rw [e] at h1 h2
+  omega
+
+theorem log_throttle_iff (q : Int) : log_throttle q = true ↔ q > (MAX_LOG_QUEUE_BYTES : Int) := by
+  unfold log_throttle; exact decide_eq_true_iff
+
+/-- `q` = counter after the subtraction (any `i64`, possibly negative), `b` = bytes of the enacted record -/
+theorem log_wake_iff (q : Int) (b : Nat) (hq : -(2 ^ 63) ≤ q) (hb : (b : Int) < 2 ^ 63) (hs : q + b < 2 ^ 63) :
+    log_wake q b = true ↔ (q ≤ (MAX_LOG_QUEUE_BYTES : Int) ∧ q + b > (MAX_LOG_QUEUE_BYTES : Int)) := by
+  have hc : icast 64 b = (b : Int) := by
+    unfold icast; exact iwrap64_of_range _ (by have : (0 : Int) ≤ (b : Int) := Int.natCast_nonneg b; omega) hb
+  have hm : iadd 64 q (icast 64 b) = q + b := by
+    unfold iadd; rw [hc]; exact iwrap64_of_range _ (by have : (0 : Int) ≤ (b : Int) := Int.natCast_nonneg b; omega) hs
+  unfold log_wake
+  rw [hm, Bool.and_eq_true, decide_eq_true_iff, decide_eq_true_iff]
+
+/-- Log queue: `process_commits` waits while `log_throttle counter`; `enact_logs` subtracts the
     `b` bytes of the enacted record leaving `q` and notifies iff `log_wake q b`. -/
-theorem log_wake_on_crossing (q b : Nat) (h64 : q + b < 2 ^ 64)
+theorem log_wake_on_crossing (q : Int) (b : Nat) (hq : -(2 ^ 63) ≤ q) (hb : (b : Int) < 2 ^ 63)
+    (hs : q + b < 2 ^ 63)
     (hbefore : log_throttle (q + b) = true) (hafter : log_throttle q = false) :
     log_wake q b = true := by
-  rw [log_wake_iff q b h64]
+  rw [log_wake_iff q b hq hb hs]
   have h1 := (log_throttle_iff (q + b)).mp hbefore
-  have h2 : ¬ q > MAX_LOG_QUEUE_BYTES := fun h => by
+  have h2 : ¬ q > (MAX_LOG_QUEUE_BYTES : Int) := fun h => by
     rw [(log_throttle_iff q).mpr h] at hafter; cases hafter
   omega
+
+/-- no notification unless the counter was above the limit before the subtraction: in particular
+    none while the counter is negative (the underflow the Rust comment mentions) -/
+theorem log_no_wake_below (q : Int) (b : Nat) (hq : -(2 ^ 63) ≤ q) (hb : (b : Int) < 2 ^ 63)
+    (hs : q + b < 2 ^ 63) (h : q + b ≤ (MAX_LOG_QUEUE_BYTES : Int)) : log_wake q b = false := by
+  cases hw : log_wake q b with
+  | false => rfl
+  | true => have := (log_wake_iff q b hq hb hs).mp hw; omega
+
+theorem log_wake_implies_unthrottled (q : Int) (b : Nat) (hq : -(2 ^ 63) ≤ q) (hb : (b : Int) < 2 ^ 63)
+    (hs : q + b < 2 ^ 63) (h : log_wake q b = true) : log_throttle q = false := by
+  have := (log_wake_iff q b hq hb hs).mp h
+  cases ht : log_throttle q with
+  | false => rfl
+  | true => have := (log_throttle_iff q).mp ht; omega
 
 theorem queue_limits_positive : 0 < MAX_COMMIT_QUEUE_BYTES ∧ 0 < MAX_LOG_QUEUE_BYTES ∧
     0 < MAX_LOG_FILES ∧ MAX_LOG_FILES ≤ KEEP_LOGS := by decide
 
+/-! ### `max_logs` / `keep_logs` as generated from `enact_logs` / `clean_logs` -/
+
+/-- what the cleanup worker leaves behind never keeps `enact_logs` waiting -/
+theorem keep_logs_le_max_logs (sync_data : Bool) : clean_keep_logs sync_data ≤ enact_max_logs sync_data := by
+  cases sync_data <;> decide
+
+theorem max_logs_values : enact_max_logs true = MAX_LOG_FILES ∧ enact_max_logs false = KEEP_LOGS ∧
+    clean_keep_logs true = 0 ∧ clean_keep_logs false = KEEP_LOGS := by decide
+
 example : commit_throttle (MAX_COMMIT_QUEUE_BYTES + 5) = true ∧ commit_throttle MAX_COMMIT_QUEUE_BYTES = false ∧
     commit_wake MAX_COMMIT_QUEUE_BYTES 5 = true := by decide
 
+example : log_throttle ((MAX_LOG_QUEUE_BYTES : Int) + 5) = true ∧ log_throttle (MAX_LOG_QUEUE_BYTES : Int) = false ∧
+    log_wake (MAX_LOG_QUEUE_BYTES : Int) 5 = true ∧ log_throttle (-7) = false ∧ log_wake (-7) 3 = false ∧
+    log_wake (-7) 134217740 = true := by decide
+
+/-! ### the C15 model runs on the generated definitions
+(kept in namespace `Pdb.Gen`: the check derives theorem names from the first `namespace` of a file) -/
+section Model
+open Pdb.Conc.Pipe
+
+/-- H6-type edits (swapping the two branches, another constant) break these -/
+theorem cfg_maxLogs_gen (c : Cfg) : c.maxLogs = enact_max_logs c.syncData := rfl
+theorem cfg_keepLogs_gen (c : Cfg) : c.keepLogs = clean_keep_logs c.syncData := rfl
+
+theorem cfg_keep_le_max (c : Cfg) : c.keepLogs ≤ c.maxLogs := by
+  rw [cfg_maxLogs_gen, cfg_keepLogs_gen]; exact keep_logs_le_max_logs _
+
+/-- the queue-full test of `Act.commit` -/
+theorem model_commit_throttle (q : Nat) : decide (q > MAXQ) = commit_throttle q := rfl
+
+/-- the notification condition of `tickL` at `.pop` -/
+theorem model_commit_wake (q b : Nat) (h64 : q + b < 2 ^ 64) :
+    (decide (q ≤ MAXQ) && decide (q + b > MAXQ)) = commit_wake q b := by
+  have hm : wadd 64 q b = q + b := by unfold wadd; exact Nat.mod_eq_of_lt h64
+  unfold commit_wake MAXQ
+  rw [hm]
+
+/-- the throttle test of `tickL` at `.thr` -/
+theorem model_log_throttle (lq : Int) : decide (lq > (MAXL : Int)) = log_throttle lq := rfl
+
+/-- the notification condition of `tickC` at `.enRead` (`lq` = counter before the subtraction of `r`) -/
+theorem model_log_wake (lq : Int) (r : Nat) (h1 : -(2 ^ 63) ≤ lq - r) (hr : (r : Int) < 2 ^ 63) (h2 : lq < 2 ^ 63) :
+    (decide (lq - (r : Int) ≤ (MAXL : Int)) && decide (lq > (MAXL : Int))) = log_wake (lq - r) r := by
+  have e : lq - (r : Int) + (r : Int) = lq := by omega
+  have hc : icast 64 r = (r : Int) := by
+    unfold icast; exact iwrap64_of_range _ (by have : (0 : Int) ≤ (r : Int) := Int.natCast_nonneg r; omega) hr
+  have hm : iadd 64 (lq - r) (icast 64 r) = lq := by
+    unfold iadd; rw [hc, e]
+    exact iwrap64_of_range _ (by have : (0 : Int) ≤ (r : Int) := Int.natCast_nonneg r; omega) h2
+  unfold log_wake MAXL
+  rw [hm]
+
+end Model
+
 end Pdb.Gen
+
+#print axioms Pdb.Gen.commit_wake_on_crossing
+#print axioms Pdb.Gen.log_wake_on_crossing
+#print axioms Pdb.Gen.log_no_wake_below
+#print axioms Pdb.Gen.keep_logs_le_max_logs
+#print axioms Pdb.Gen.cfg_maxLogs_gen
+#print axioms Pdb.Gen.cfg_keepLogs_gen
+#print axioms Pdb.Gen.model_commit_wake
+#print axioms Pdb.Gen.model_log_wake
